@@ -14,6 +14,9 @@ Plans == {<<sh, S>> : sh \in Shapes, S \in {T \in SUBSET Features : Cardinality(
 \* two type parameters T (declared first) and U, so that "every non-skipped parameter is bound" has an order to get wrong
 Items == { [k |-> "bounds", ps |-> {"T", "U"}], [k |-> "bounds", ps |-> {"T"}], [k |-> "bounds", ps |-> {"U"}], [k |-> "bounds", ps |-> {}],
            [k |-> "skip_type_params", ps |-> {"T"}], [k |-> "skip_type_params", ps |-> {"U"}],
+           \* a skip list as LONG as the parameter list that does not name every parameter: a name that is no parameter ("X"), a
+           \* parameter named twice ("TT" is written T): legal lists, and they skip only what they name
+           [k |-> "skip_type_params", ps |-> {"T", "X"}], [k |-> "skip_type_params", ps |-> {"T", "TT"}],
            [k |-> "capture_docs", valid |-> TRUE, val |-> "default"], [k |-> "capture_docs", valid |-> TRUE, val |-> "Always"],
            [k |-> "capture_docs", valid |-> TRUE, val |-> "never"], [k |-> "capture_docs", valid |-> FALSE, val |-> "sometimes"], [k |-> "crate"],
            [k |-> "replace_segment"], [k |-> "unknown"],
